@@ -249,6 +249,53 @@ def report(chk, events, bad):
         chk.violation(sig, f"environment differs from the law in force on {len(days)} day(s): {days[0]} .. {days[-1]}", {"days": days[:50], "signature": sig})
 
 
+def pollute_earlier_environments():
+    from _gettsim.config import INTERNAL_PARAMS_GROUPS
+    from _gettsim.policy_environment import _load_parameter_group_from_yaml, set_up_policy_environment
+
+    def overwrite(v):
+        n = 0
+        if isinstance(v, dict):
+            for k in list(v.keys()):
+                x = v[k]
+                if isinstance(x, (dict, list)):
+                    n += overwrite(x)
+                elif isinstance(x, np.ndarray) and x.dtype.kind in "fi":
+                    x[...] = x * 3 + 11
+                    n += 1
+                elif isinstance(x, bool):
+                    continue
+                elif isinstance(x, (int, float)):
+                    v[k] = x * 3 + 11
+                    n += 1
+                elif isinstance(x, str):
+                    v[k] = x + "~"
+                    n += 1
+        elif isinstance(v, list):
+            for i, x in enumerate(v):
+                if isinstance(x, (dict, list)):
+                    n += overwrite(x)
+                elif isinstance(x, (int, float)) and not isinstance(x, bool):
+                    v[i] = x * 3 + 11
+                    n += 1
+        return n
+
+    n = 0
+    for iso in ("2023-01-01", "2020-01-01", "2019-01-01", "2016-07-01", "2005-01-01", "2002-01-01"):
+        try:
+            params, functions = set_up_policy_environment(iso)
+            n += overwrite(params)
+        except Exception:  # noqa: BLE001
+            pass
+        d = datetime.date.fromisoformat(iso)
+        for g in INTERNAL_PARAMS_GROUPS:
+            try:
+                n += overwrite(_load_parameter_group_from_yaml(d, g))
+            except Exception:  # noqa: BLE001
+                pass
+    return n
+
+
 def run(tier):
     chk = Check("C07", tier, LEVEL)
     rnd = random.Random(chk.seed * 31337 + 7)
@@ -262,6 +309,10 @@ def run(tier):
     raw_file = chk.work / "raw.json"
     tlc.write_json(raw_file, {"groups": raw, "impls": impls})
     days, nb = choose_days(raw, impls, rnd, quick)
+    # "for every date" also means: whatever a caller did to environments it got earlier.  Before the observations (the workers
+    # are forked from this process) a few environments and raw groups are set up and every numeric leaf they hold is
+    # overwritten in place; a loader that hands out shared objects then no longer returns the law.
+    chk.notes["environments_overwritten_before_observation"] = pollute_earlier_environments()
     full = set(rnd.sample(days, min(10 if quick else 60, len(days)))) | {"2023-01-01", "2021-06-01", "2022-07-01", "2005-01-01"}
     jobs = [(d, d in full) for d in sorted(set(days) | full)]
     outs = pool_map(observe_day, jobs)
